@@ -43,6 +43,9 @@ EXPLANATION = (
     "expanded through aliases.get(km, [km]); apply inserts at exactly that "
     "index; 'changed' is only ever set, never reset. R4-R6: dominance facts "
     "and linear-constraint range proofs.")
+EXPLANATION += (
+    " R3's down-check scan rule also requires that no fact about the "
+    "scanned entry other than the intersection test guards the yield.")
 NOT_DECIDED = [
     "that the up-/down-check refinement loop is sufficient for functional "
     "equivalence on every table (an inductive argument over merge "
